@@ -2,7 +2,7 @@
     Only statements, each closed by [exact <lemma>]; the proofs live in
     KernelProofs/{Budget,LumpedConstituent,Decay,InstreamFineSediment,
     InstreamCoarseSediment,InstreamParticulateNutrient,SedimentTrapping,TrapAll,
-    DissolvedDecay,C12Float}.v.  All theorems but the three binary64 witnesses are
+    DissolvedDecay,InstreamDissolvedNutrient,C12Float}.v.  All theorems but the three binary64 statements are
     about the real-number instance [RArith] of the kernels in Kernels/*.v, which are
     the same Gallina terms that are extracted and run against the Go code.
 
@@ -139,18 +139,38 @@ Theorem C12_fine_initial_store_nonneg : forall p c, fine_params_ok p -> 0 <= @fi
 Proof. exact fine_init_store_nonneg. Qed.
 Print Assumptions C12_fine_initial_store_nonneg.
 
-(** REFUTED on the bankFullFlow <= 1e-8 path: the reach-local mass entering the reach vanishes *)
-Theorem C12_fine_lowbank_loses_reach_local_refuted :
-  exists (params states : list R) (inputs : list (list R)) outs c' m',
-    nth 0 params 0 <= 1 / 100000000 /\
-    Forall (Forall (fun v => 0 <= v)) inputs /\
-    @instream_fine_sediment_kernel R RArith params states inputs = Some (outs, [c'; m']) /\
-    nth 0 states 0 + nth 1 states 0 +
-      (Rsum (nth 0 inputs []) + Rsum (nth 1 inputs []) + Rsum (nth 2 inputs [])) * nth 12 params 0
-    <> c' + m' + Rsum (nth 0 outs []) * nth 12 params 0 + Rsum (nth 1 outs []) * nth 12 params 0 /\
-    1 / 100 <= nth 0 (nth 4 inputs []) 0 * nth 12 params 0 + nth 0 (nth 3 inputs []) 0.
-Proof. exact fine_lowbank_loses_reach_local_refuted. Qed.
-Print Assumptions C12_fine_lowbank_loses_reach_local_refuted.
+(** no division by zero is reached in the floodplain function (in particular at outflow =
+    bankFullFlow, which gave NaN in binary64 before fix d80779f): at or below bank-full it
+    returns 0 before dividing, above bank-full both divisors are positive *)
+Theorem C12_fine_floodplain_no_division_by_zero : forall q M bff v A,
+  (q <= bff -> @floodPlainDepositionEmperical R RArith q M bff v A = 0) /\
+  (bff < q -> 0 <= bff -> 0 < q - bff /\ 0 < q).
+Proof. exact floodplain_no_division_by_zero. Qed.
+Print Assumptions C12_fine_floodplain_no_division_by_zero.
+
+(** ** bankFullFlow <= 1e-8 path (after fix 70f6256): lumped routing of upstream + lateral +
+    reach-local mass; the mass entering is the SAME [fine_inflow] as on the main path *)
+Theorem C12_fine_lowbank_budget : forall p xs m,
+  m + inflows (fine_inflow p) xs =
+  fst (run (@fine_lowbank_step R RArith p) m xs) +
+  outflows (fine_lowbank_outflow p) xs (snd (run (@fine_lowbank_step R RArith p) m xs)).
+Proof. exact fine_lowbank_run_budget. Qed.
+Print Assumptions C12_fine_lowbank_budget.
+
+Theorem C12_fine_lowbank_flush_only_below_minimum_volume : forall p xs m,
+  Forall (fun xo => lo_flushed (snd xo) <> 0 ->
+                    fi_outflow (fst xo) * fp_durationInSeconds p + fi_reachVolume (fst xo) < 1 / 100)
+         (combine xs (snd (run (@fine_lowbank_step R RArith p) m xs))).
+Proof. exact fine_lowbank_run_flush. Qed.
+Print Assumptions C12_fine_lowbank_flush_only_below_minimum_volume.
+
+Theorem C12_fine_lowbank_nonneg : forall p, 0 <= fp_durationInSeconds p -> forall xs m,
+  0 <= m -> Forall fine_in_nonneg xs ->
+  0 <= fst (run (@fine_lowbank_step R RArith p) m xs) /\
+  Forall (fun xo => 0 <= lo_outflowLoad (snd xo) /\ 0 <= lo_flushed (snd xo))
+         (combine xs (snd (run (@fine_lowbank_step R RArith p) m xs))).
+Proof. exact fine_lowbank_run_nonneg. Qed.
+Print Assumptions C12_fine_lowbank_nonneg.
 
 (** * 4. In-stream coarse sediment: everything is deposited *)
 Theorem C12_coarse_budget : forall dt xs s,
@@ -191,7 +211,11 @@ Theorem C12_particulate_nonneg : forall pnc spf dt, 0 <= pnc -> 0 <= spf <= 100 
 Proof. exact pn_run_nonneg. Qed.
 Print Assumptions C12_particulate_nonneg.
 
-(** * 6. Reservoir particulate trapping (positive working volume: the model has no guard) *)
+(** * 6. Reservoir particulate trapping (after fix 7addb3e the division is guarded).
+    For non-negative inputs (so the working volume is >= 0), non-negative step and initial store:
+    stored + sum inflow*dt = stored' + sum (outflowLoad*dt + trapped).  There is no flush in this
+    model.  The non-negativity hypotheses are genuinely needed: the model clamps the new store with
+    math.Max(.,0), which would create mass out of a negative store. *)
 Theorem C12_trapping_budget : forall p, 0 <= tp_deltaT p -> forall xs s,
   0 <= s -> Forall (trap_in_ok p) xs ->
   0 <= fst (run (@trap_step R RArith p) s xs) /\
@@ -199,6 +223,11 @@ Theorem C12_trapping_budget : forall p, 0 <= tp_deltaT p -> forall xs s,
   fst (run (@trap_step R RArith p) s xs) + outflows (trap_outflow p) xs (snd (run (@trap_step R RArith p) s xs)).
 Proof. exact trap_run_budget. Qed.
 Print Assumptions C12_trapping_budget.
+
+(** [trap_in_ok] is just non-negativity of the three series that matter *)
+Theorem C12_trapping_hypothesis_is_nonnegativity : forall p x,
+  trap_in_ok p x <-> (0 <= ti_inflowLoad x /\ 0 <= ti_outflow x /\ 0 <= ti_storage x).
+Proof. exact trap_in_ok_iff. Qed.
 
 Theorem C12_trapping_nonneg : forall p, 0 <= tp_deltaT p -> forall xs s,
   0 <= s -> Forall (trap_in_ok p) xs ->
@@ -208,14 +237,21 @@ Theorem C12_trapping_nonneg : forall p, 0 <= tp_deltaT p -> forall xs s,
 Proof. exact trap_run_nonneg. Qed.
 Print Assumptions C12_trapping_nonneg.
 
-(** REFUTED for an empty reservoir without outflow (binary64): NaN for the rest of the run *)
-Theorem C12_trapping_nan_on_empty_refuted : forall l : LibM,
-  exists params states inputs outs st,
-    all_nonneg params = true /\ all_nonneg states = true /\ forallb all_nonneg inputs = true /\
-    @storage_particulate_trapping_kernel float (FArith l) params states inputs = Some (outs, [st]) /\
-    f_is_nan st = true /\ f_is_nan (nth 0 (nth 1 outs []) 0%float) = true.
-Proof. exact trapping_nan_on_empty_refuted. Qed.
-Print Assumptions C12_trapping_nan_on_empty_refuted.
+(** the zero-volume branch explicitly: nothing is released, the untrapped mass stays *)
+Theorem C12_trapping_empty_reservoir_keeps_mass : forall p s x,
+  0 <= s -> 0 <= ti_inflowLoad x -> 0 <= tp_deltaT p -> trap_working_vol p x <= 0 ->
+  to_outflowLoad (snd (@trap_step R RArith p s x)) = 0 /\
+  fst (@trap_step R RArith p s x) = s + trap_inflow p x - to_trappedMass (snd (@trap_step R RArith p s x)).
+Proof. exact trap_step_empty_reservoir. Qed.
+Print Assumptions C12_trapping_empty_reservoir_keeps_mass.
+
+(** ... and in binary64, on the input that produced NaN before the fix, for every libm *)
+Theorem C12_trapping_empty_reservoir_keeps_mass_binary64 : forall l : LibM,
+  @storage_particulate_trapping_kernel float (FArith l)
+    [86400; 1000000; 0; 112; 800; 1; 0.5]%float [10]%float [[1]; [1]; [0]; [0]]%float
+  = Some ([[0]; [0]], [86410])%float.
+Proof. exact trapping_empty_reservoir_keeps_mass. Qed.
+Print Assumptions C12_trapping_empty_reservoir_keeps_mass_binary64.
 
 (** * 7. Reservoir trap-all *)
 (** the numbers balance in the units of the input (kg/s): stored + sum inflowMass = sum trappedMass *)
@@ -267,15 +303,19 @@ Theorem C12_dissolved_kernel_total : forall (dt flag ari bff mfrt s : R) (a b c 
 Proof. exact dissolved_kernel_total. Qed.
 Print Assumptions C12_dissolved_kernel_total.
 
-(** * 9. Binary64 findings *)
-Theorem C12_fine_nan_at_bankfull_refuted :
-  exists params states inputs outs c st,
-    all_nonneg params = true /\ all_nonneg states = true /\ forallb all_nonneg inputs = true /\
-    @instream_fine_sediment_kernel float (FArith stubM) params states inputs = Some (outs, [c; st]) /\
-    f_is_nan st = true /\ f_is_nan (nth 0 (nth 0 outs []) 0%float) = true.
-Proof. exact fine_nan_at_bankfull_refuted. Qed.
-Print Assumptions C12_fine_nan_at_bankfull_refuted.
+(** * 9. Binary64 *)
+(** regression witness of fix d80779f: outflow = bankFullFlow with no floodplain: no NaN *)
+Theorem C12_fine_at_bankfull_no_nan_binary64 :
+  exists outs c st,
+    @instream_fine_sediment_kernel float (FArith stubM)
+      [10; 0; 0; 5; 1000; 0.5; 2; 0.5; 1.5; 0.25; 0.125; 0.25; 86400]%float [0; 100]%float
+      [[0.5]; [0]; [0]; [1000]; [10]]%float = Some (outs, [c; st]) /\
+    forallb (forallb (fun v => negb (f_is_nan v))) outs = true /\
+    f_is_nan c = false /\ f_is_nan st = false /\ nth 0 (nth 1 outs []) 1%float = 0%float.
+Proof. exact fine_at_bankfull_no_nan. Qed.
+Print Assumptions C12_fine_at_bankfull_no_nan_binary64.
 
+(** remaining binary64 finding *)
 Theorem C12_decay_roundoff_negative_refuted : forall l : LibM,
   exists params states inputs outs st,
     all_nonneg params = true /\ all_nonneg states = true /\ forallb all_nonneg inputs = true /\
@@ -307,11 +347,12 @@ Theorem C12_fine_kernel_main_is_run : forall (bff vf fpa lw ll ls bh pbh sbd mn 
         [fst (fst r); snd (fst r)]).
 Proof. exact fine_kernel_unfold_main. Qed.
 
-Theorem C12_fine_kernel_lowbank_is_lumped_without_reach_local :
+Theorem C12_fine_kernel_lowbank_is_run :
   forall (bff vf fpa lw ll ls bh pbh sbd mn vs vr dt c m : R) (a b l v q : list R),
   bff <= 1 / 100000000 ->
   @instream_fine_sediment_kernel R RArith [bff; vf; fpa; lw; ll; ls; bh; pbh; sbd; mn; vs; vr; dt] [c; m] [a; b; l; v; q] =
-  let r := run (@lumped_step R RArith 0 dt) m (lumped_rows a (Some b) q v) in
+  let p := mk_fine_params bff vf fpa lw ll ls bh pbh sbd mn vs vr dt in
+  let r := run (@fine_lowbank_step R RArith p) m (fine_rows a b l v q) in
   Some ([map lo_outflowLoad (snd r); zeros (snd r); zeros (snd r); zeros (snd r); zeros (snd r)], [c; fst r]).
 Proof. exact fine_kernel_unfold_lowbank. Qed.
 
@@ -392,6 +433,17 @@ Example C12_fine_remobilisation_example :
   fst r = (0, 5 / 2) /\ fo_loadToChannelDeposition (snd r) = - 5 /\ fo_loadDownstream (snd r) = 5 / 2 /\
   fo_channelStoreBefore (snd r) = 5 /\ fo_flushed (snd r) = 0.
 Proof. exact fine_remobilisation_example. Qed.
+
+Example C12_fine_lowbank_keeps_reach_local :
+  let p := mk_fine_params 0 0 0 10 1000 (1/1000) 2 (1/2) (3/2) (4/100) (1/1000) (1/1000) 86400 in
+  let r := @fine_lowbank_step R RArith p 0 (mk_fine_in 0 0 1 1000 1) in
+  fst r + lo_outflowLoad (snd r) * 86400 = 86400 /\ lo_flushed (snd r) = 0 /\ 0 < fst r.
+Proof. exact fine_lowbank_keeps_reach_local. Qed.
+
+Example C12_trap_empty_example :
+  @trap_step R RArith (mk_trap_params 86400 1000000 0 112 800 1 (1/2)) 10 (mk_trap_in 1 1 0 0) =
+  (86410, {| to_trappedMass := 0; to_outflowLoad := 0 |}).
+Proof. exact trap_empty_example. Qed.
 
 Example C12_particulate_deposition_example :
   let r := @pn_step R RArith 0 0 1 (100, 0) (mk_pn_in 0 0 1 1 0 0 0 (1 / 2)) in
